@@ -97,7 +97,9 @@ def get_adjusted_url(url: str, addr: AddressTupleVXType) -> str:
     except ValueError:
         # Not a splittable URL (e.g., unbalanced IPv6 brackets), nothing to adjust.
         return url
-    assert data.hostname
+    if not data.hostname:
+        # No host to adjust (e.g., a relative reference).
+        return url
     try:
         address = ip_address(data.hostname)
     except ValueError:
